@@ -96,11 +96,27 @@ def gen_cases(rng, tier, scale):
             ('{{#each groups as |v k|}}{{#each v.items as |k v|}}{{k}}={{v}},{{/each}}{{k}};{{/each}}', 'a=0,b=1,0;c=0,1;'),
             ('{{#with o as |x|}}{{#each @root.groups as |x|}}{{x.n}}{{/each}}{{x.k}}{{/with}}', 'g0g1K')]):
         cases.append(rcase(f'sh{k5}', tpl, D3, entry=4, kind='fixedout', exp=exp, tags=['shadowed-block-param']))
+    D4 = {'l': [['a', 'b'], ['c']], 'o': {'x': {'n': 1}, 'y': {'n': 2}}, 'rows': [{'name': 'A', 'cells': [1, 2]}], 'tags': ['t1', 't2'],
+          'l2': [{'name': 'n1', 'members': ['m1', 'm2']}], 'meta': {'a': 1}, 'po': {'n': 'N'}}
+    for k6, (tpl, exp) in enumerate([
+            ('{{#each l as |row i|}}{{#each row}}{{../i}}:{{this}} {{/each}}{{/each}}', '0:a 0:b 1:c '),
+            ('{{#each o as |v k|}}{{#with v}}{{../k}}={{n}};{{/with}}{{/each}}', 'x=1;y=2;'),
+            ('{{#each l as |row i|}}{{#each row as |c j|}}{{#if c}}{{../../i}}{{../j}}{{/if}}{{/each}}{{/each}}', '000110'),
+            ('{{#each (id rows) as |row|}}{{#with row}}{{../row.name}}{{/with}}{{/each}}', 'A'),
+            ('{{#each (id rows) as |row|}}{{#each ../row.cells}}{{this}}{{/each}}{{/each}}', None),
+            ('{{#each (id l2)}}{{#each @root.tags}}{{../name}}-{{this}};{{/each}}{{/each}}', 'n1-t1;n1-t2;'),
+            ('{{#each (id l2)}}{{#with @root.meta}}{{#each ../members}}{{this}},{{/each}}{{/with}}{{/each}}', 'm1,m2,'),
+            ('{{#each [[1]]}}{{#with @root.meta}}{{a}}{{../this}}{{/with}}{{/each}}', '1[1]'),
+            ('{{#each tags as |t|}}{{#each (id l2)}}{{#each t}}x{{else}}{{../name}}{{/each}}{{/each}}{{/each}}', None),
+            ('{{> pp po}}', 'NN')]):
+        cases.append(rcase(f'up{k6}', tpl, D4, pre=['probes'], partials={'pp': '{{#each @root.tags}}{{../n}}{{/each}}'}, entry=0, kind='fixedout', exp=exp, tags=['up-to-value-bound']))
     return cases
 
 def oracle(c, io, mo):
     r = res_of(io)
     if c.get('kind') == 'fixedout':
+        if c['exp'] is None:
+            return None          # decided by the correspondence alone
         return None if r.get('out') == c['exp'] else f'expected {c["exp"]!r}, got {r.get("out", r.get("reason"))!r}'
     try:
         exp = Ref(c['data']).render(c['ast'])
